@@ -362,6 +362,35 @@ var specNet = pbt.Spec[Case]{
 
 func TestNet(t *testing.T) { pbt.Run(t, specNet) }
 
+func netBigGen(t *rapid.T) Case {
+	c := netGen(t)
+	// a few messages of ~1 MiB: larger than HTTP/2's default frame and
+	// flow-control quanta, so net/http splits them (and their prefixes) freely
+	for i := range c.Req {
+		if i < 2 && rapid.Bool().Draw(t, "bigReq") {
+			c.Req[i].TLen = rapid.IntRange(1<<20-8, 1<<20+8).Draw(t, "1m")
+		}
+	}
+	for i := range c.Res {
+		if i < 2 && rapid.Bool().Draw(t, "bigRes") {
+			c.Res[i].TLen = rapid.IntRange(1<<20-8, 1<<20+8).Draw(t, "1m")
+		}
+	}
+	if c.Pattern == "sendfirst" {
+		c.Pattern = "pingpong" // both sides sending megabytes before reading would be a deadlock of the program itself
+	}
+	return c
+}
+
+var specNetBig = pbt.Spec[Case]{
+	Prop: "C01", Name: "net-big",
+	Gen:   netBigGen,
+	Check: checkNet,
+	Rule:  "as [net] with up to two ~1 MiB messages per direction (beyond HTTP/2 frame size and flow-control quanta)",
+}
+
+func TestNetBig(t *testing.T) { pbt.Run(t, specNetBig) }
+
 var specMem = pbt.Spec[Case]{
 	Prop: "C01", Name: "mem",
 	Gen:   gen("mem", 8, false),
@@ -381,5 +410,5 @@ var specMemBig = pbt.Spec[Case]{
 func TestMemBig(t *testing.T) { pbt.Run(t, specMemBig) }
 
 func TestReplay(t *testing.T) {
-	pbt.ReplayMain(t, pbt.Replayer(specMem), pbt.Replayer(specNet), pbt.Replayer(specMemBig))
+	pbt.ReplayMain(t, pbt.Replayer(specMem), pbt.Replayer(specNet), pbt.Replayer(specMemBig), pbt.Replayer(specNetBig))
 }
